@@ -56,6 +56,16 @@ func runC07(p *Program, r *Report) {
 	c04unmask(p, r, "C07.unmask")
 }
 
+// isPoolRef: the address of the package-level pool variable, or of the sync.Pool inside a typed wrapper around it.
+func isPoolRef(key, pool string) bool {
+	i := strings.Index(key, "."+pool)
+	if i < 0 {
+		return false
+	}
+	rest := key[i+len(pool)+1:]
+	return rest == "" || (strings.HasPrefix(rest, ".") && !strings.ContainsAny(rest[1:], ".()[] "))
+}
+
 func c07get(p *Program, r *Report, rule string) {
 	type getter struct {
 		fn, pool, reset, fresh string
@@ -77,8 +87,13 @@ func c07get(p *Program, r *Report, rule string) {
 				return true, ""
 			}
 			get := pa.Calls("(*sync.Pool).Get")
-			if len(get) != 1 || !strings.HasSuffix(argKey(get[0], 0), "."+g.pool) {
-				return false, "does not take from " + g.pool
+			if len(get) != 1 || !isPoolRef(argKey(get[0], 0), g.pool) {
+				return false, "does not take from " + g.pool + " (" + func() string {
+					if len(get) == 1 {
+						return argKey(get[0], 0)
+					}
+					return fmt.Sprint(len(get)) + " Get calls"
+				}() + ")"
 			}
 			hit, known := decidedLike(pa, "assertok:@@("+get[0].Res.Key()+")")
 			if !known {
